@@ -344,6 +344,29 @@ class Attack:
                                 yield lies, v, a, True
 
 
+def search_sat(atk, rng, bitlength, budget=400):
+    """For an assignment that does not satisfy the system (operands fixed): can the prover find
+    hint values that do?  Returns (lies, assignment) or None."""
+    t = atk.t
+    a = dict(atk.base)
+    if not t.unsat(a):
+        return {}, a
+    if atk.repair(a, frozen=set()):
+        if not t.unsat(a):
+            return {"rederive": True}, a
+    tried = 0
+    for k in t.hints:
+        for cand in atk.candidates(k, rng, bitlength):
+            tried += 1
+            if tried > budget:
+                return None
+            a = dict(atk.base)
+            a[k] = cand
+            if atk.repair(a, frozen={k}) and not t.unsat(a):
+                return {k: cand}, a
+    return None
+
+
 def run_plan(plan, inputs=None, nocheck=False, hook=None):
     """One traced run without invariants; nocheck prepends ignore_errors(True)."""
     p = plan
